@@ -203,13 +203,24 @@ func c15Check(env *core.Env, cc core.Case) core.Verdict {
 	if c.DirAt != "" {
 		dir = filepath.Join(root, c.DirAt)
 	}
+	_ = (sut.Tree{"../gh-summary.md": "# summary\n"}).Write(root)
 	before := sut.Snap(sandbox)
 	logf := filepath.Join(sandbox, "strace.log")
 	if dirArg != "" {
 		dir = dirArg
 	}
 	full := append([]string{"-d", dir}, args...)
-	r := sut.Run(sut.Cmd{Bin: env.Bin, Args: full, Stdin: stdin, Dir: cwd, Strace: logf})
+	// the environment of a workflow run, with every file it names inside the sandbox (and so in the snapshot); the
+	// temporary directory is on another file system for half of the trees
+	genv := []string{"GITHUB_ACTIONS=true", "GITHUB_STEP_SUMMARY=" + filepath.Join(sandbox, "gh-summary.md"), "GITHUB_OUTPUT=" + filepath.Join(sandbox, "gh-output.txt"),
+		"GITHUB_ENV=" + filepath.Join(sandbox, "gh-env.txt"), "RUNNER_TEMP=" + filepath.Join(sandbox, "runner-temp")}
+	if len(targets)%2 == 0 {
+		genv = append(genv, "TMPDIR=/dev/shm")
+	}
+	if len(c.Cmd)%3 == 0 {
+		genv = nil
+	}
+	r := sut.Run(sut.Cmd{Bin: env.Bin, Args: full, Stdin: stdin, Dir: cwd, Strace: logf, Env: genv})
 	evs, total, err := sut.ParseStrace(logf)
 	_ = removeFile(logf)
 	if err != nil || total == 0 {
@@ -277,7 +288,7 @@ func init() {
 	register(&core.Property{
 		ID:    "C15",
 		Level: "exploration",
-		Rule: "generated CRS trees (1..3 rules files, assembly files with includes/definitions/stored names, test files, setup example) with ~25 decoys (near-miss extensions and names such as 932100.ra.bak, 9321000.yaml, 920110 without extension, *.conf~, notes.example.txt, README files containing marker text, a sibling directory outside the root with rules/assembly/test files, and the same in the directory above the root, so that the root is nested in something that looks like another root) x 33 inspecting command lines (generate file/stdin/missing, compare single/--all/github, format --check single/--all/github, renumber-tests --check single/--all/github, version, completion for 4 shells, help, failing invocations, --check and single-target runs on missing targets and on decoys that only resemble a target) and 13 rewriting ones (format single/include/--all, format of an include file and of a rule file from a working directory that holds a file of the same name, update single/--all, the same with a backup copy of the rules file that matches the same glob and sorts in front of it, renumber-tests single/--all, update-copyright) x -d at the root or 1..2 levels below. Every run is traced with strace -f (file-related and attribute system calls). " +
+		Rule: "generated CRS trees (1..3 rules files, assembly files with includes/definitions/stored names, test files, setup example) with ~25 decoys (near-miss extensions and names such as 932100.ra.bak, 9321000.yaml, 920110 without extension, *.conf~, notes.example.txt, README files containing marker text, a sibling directory outside the root with rules/assembly/test files, and the same in the directory above the root, so that the root is nested in something that looks like another root) x 33 inspecting command lines (generate file/stdin/missing, compare single/--all/github, format --check single/--all/github, renumber-tests --check single/--all/github, version, completion for 4 shells, help, failing invocations, --check and single-target runs on missing targets and on decoys that only resemble a target) and 13 rewriting ones (format single/include/--all, format of an include file and of a rule file from a working directory that holds a file of the same name, update single/--all, the same with a backup copy of the rules file that matches the same glob and sorts in front of it, renumber-tests single/--all, update-copyright) x -d at the root or 1..2 levels below. Two thirds of the runs get the environment of a GitHub workflow (GITHUB_ACTIONS, GITHUB_STEP_SUMMARY / GITHUB_OUTPUT / GITHUB_ENV naming files inside the sandbox), half of those a temporary directory on another file system. Every run is traced with strace -f (file-related and attribute system calls). " +
 			"Oracle: inspecting commands perform no successful write-class system call (open for writing/creating, unlink, rename, mkdir, chmod, truncate, link ...; /dev/null excepted) and leave the sandbox snapshot (root plus outside sibling) identical; rewriting commands change only paths allowed by a path model written from the statement, perform no write-class call outside the root or on a pre-existing non-target. Non-trivial = every traced run; distinct by (tree, command, -d).",
 		Cases: func(env *core.Env, rng *rand.Rand) []core.Case {
 			trees := env.N(10, 80)
